@@ -839,7 +839,7 @@ class Controller(object):
                 return exit_info
 
         # Now increase npt, if required
-        if params("restarts.increase_npt") and self.model.npt() < params("restarts.max_npt"):
+        if params("restarts.increase_npt") and params("restarts.increase_npt_amt") > 0 and self.model.npt() < params("restarts.max_npt"):
             num_pts_to_add = min(params("restarts.increase_npt_amt"), params("restarts.max_npt") - self.model.npt())
             # First n points will be random orthogonal directions; the rest will be purely random directions
             # sl <= xopt + dirn <= su   -or equivalently-   sl-xopt <= dirn <= su-xopt
